@@ -438,11 +438,26 @@ def check_schedule(rep, prog):
                 out.append((ast.unparse(n.target), ast.unparse(inner.target), ast.unparse(inner.iter), ast.unparse(iff[0].test) if iff else None, ast.unparse(aug[0]) if aug else None,
                             bool(aug) and inner.body.index(aug[0]) > inner.body.index(iff[0]) if iff and aug else False))
         return out
+    def canon_names(rec):
+        # the two builders may call their loop variables differently: names are replaced by their order of first appearance
+        import re as _re
+        order = []
+        def sub(m_):
+            w = m_.group(0)
+            if w in ('enumerate', 'self', 'gammas', 'split_jobs', 'this_job_id', 'True', 'False', 'None'):
+                return w
+            if w not in order:
+                order.append(w)
+            return 'v%d' % order.index(w)
+        return tuple(_re.sub(r'[A-Za-z_]\w*', sub, x) if isinstance(x, str) else x for x in rec)
     s1, s2 = sched(sp), sched(mp)
-    ok = len(s1) == 1 and s1 == s2 and s1[0][3] == 'this_eval % split_jobs == this_job_id' and s1[0][4] == 'this_eval += 1' and s1[0][5]
+    ref = canon_names(('(ii, gamma)', '(jj, gamma2)', 'enumerate(self.gammas)', 'this_eval % split_jobs == this_job_id', 'this_eval += 1', True))
+    ok = len(s1) == 1 and len(s2) == 1 and canon_names(s1[0]) == canon_names(s2[0]) == ref
     rep.ob('R-TPL', 'Cache2D job predicate', ok, 'single: %s | multi: %s' % (s1, s2), m2.rel, sp.lineno, what='same enumeration and predicate this_eval %% split_jobs == this_job_id with an unconditional counter in both builders')
+    from sa.pattern import has as _has
     for fn, what in ((sp, 'self.spectra[ii][jj] = func_ex(tuple(self.params) + (gamma, gamma2), self.ns, self.pts)'), (mp, 'work.put((ii, jj, gamma, gamma2))')):
-        rep.ob('R-IDX', 'Cache2D job payload %s' % fn.name, what in ast.unparse(fn), what, m2.rel, fn.lineno, what='job (ii, jj) evaluates (gamma_ii, gamma_jj)')
+        pat = 'for ii, gamma in enumerate(self.gammas):\n    for jj, gamma2 in enumerate(self.gammas):\n        if this_eval % split_jobs == this_job_id:\n            ' + what
+        rep.ob('R-IDX', 'Cache2D job payload %s' % fn.name, _has(ast.unparse(fn), pat), what, m2.rel, fn.lineno, what='job (ii, jj) evaluates (gamma_ii, gamma_jj)')
     mg = prog.func(C2, 'Cache2D.merge')
     t = ast.unparse(mg)
     okm = 'new_cache = copy.deepcopy(caches[0])' in t and "raise ValueError('Merged cached conflicts with current.')" in t and 'new_cache.spectra[ii][jj] is not None and (not np.all(new_cache.spectra[ii][jj] == fs))' in t
